@@ -38,6 +38,8 @@ def single_specs(w, tier):
 
 def pair_specs(w, tier):
     firsts = [(s, d, 'exact', ln) for s in (0, 4, (1 << 14) - 2) for d in (1, 2, 4) for ln in ('same', '+2', '+1000')]
+    # a first segment WITHOUT data (a reserve): empty data block, or no words taken from a non-empty one
+    firsts += [(s, 0, 'exact', ln) for s in (0, 4) for ln in ('+2', '+1000')] + [(s, 1, 'empty', '+2') for s in (0, 4)]
     for f in firsts:
         for s2 in ('adjacent', 'overlap_last', 'same', 'before', 'before_overlap', 'far', 'zero'):
             for d2 in (3, 0, 4):
@@ -55,6 +57,14 @@ def triple_specs(w, tier):
                         for r3 in ('exact', 'prev', 'overlap_prev'):
                             yield (f, (s2, 3, r2, '+2'), (s3, d3, r3, 'same'))
                             yield (f, (s2, 3, r2, '+1002'), (s3, d3, r3, '+1000'))
+    # a data-less segment (reserve) in the middle / at the start, then segments with data
+    for f in [(0, 1, 'exact', 'same'), (0, 0, 'exact', '+2')]:
+        for s2 in ('adjacent', 'far'):
+            for mid in ((s2, 0, 'exact', '+2'), (s2, 0, 'exact', '+1002'), (s2, 3, 'empty', '+2')):
+                for s3 in ('adjacent', 'before', 'far'):
+                    for d3 in (3, 4):
+                        for r3 in ('exact', 'prev'):
+                            yield (f, mid, (s3, d3, r3, 'same'))
 
 
 def materialize(specs, w):
@@ -153,6 +163,9 @@ def natural_image(calls, w):
     return words, lazy, segs
 
 
+LOG = []  # per add_segment call of the last run_case: (call index, accepted?, the calls accepted before it, the call)
+
+
 def run_case(calls, w, version, path, preset=None):
     """drive the real Writer then Reader. a call rejected with FlipJumpWriteFjmException is SKIPPED and the
     sequence goes on (a rejected call must leave the writer unchanged).
@@ -164,6 +177,7 @@ def run_case(calls, w, version, path, preset=None):
     kw = {} if preset is None else {'lzma_preset': preset}
     accepted = []
     detail = ''
+    LOG.clear()
     try:
         wr = Writer(path, w, FJMVersion(version), **kw)
         for c in calls:
@@ -172,9 +186,13 @@ def run_case(calls, w, version, path, preset=None):
                     wr.add_data(list(c[1]))
                 else:
                     wr.add_segment(c[1], c[2], c[3], c[4])
+                if c[0] == 'seg':
+                    LOG.append((len(LOG), True, repr(accepted), c))
                 accepted.append(c)
             except FlipJumpWriteFjmException as e:
                 detail = detail or str(e)[:80]
+                if c[0] == 'seg':
+                    LOG.append((len(LOG), False, repr(accepted), c))
                 if c[0] == 'data':
                     accepted.append(('data', []))  # a refused data block adds nothing (indices of later blocks are the writer's)
                     return 'rejected', detail, None, accepted
@@ -246,9 +264,11 @@ def check_sequence(specs, w, path, sieve, stats, presets=(None,)):
     from fjv.ref import fjm as R2
     calls = materialize(specs, w)
     images = {}
+    logs = {}
     for version in (0, 1, 2, 3):
         for preset in (presets if version == 3 else (None,)):
             outcome, detail, r, accepted = run_case(calls, w, version, path, preset)
+            logs[(version, preset)] = list(LOG)
             why = classify(accepted if outcome not in ('rejected', 'raw-exception') else calls, w, version)
             if outcome == 'loaded' and len(accepted) < len(calls):
                 stats['continued_after_a_rejected_call'] = stats.get('continued_after_a_rejected_call', 0) + 1
@@ -276,6 +296,21 @@ def check_sequence(specs, w, path, sieve, stats, presets=(None,)):
                 images[(version, preset)] = (repr(accepted), R2.normalize(*R2.reader_image(r)))
             elif outcome == 'rejected' and why is None:
                 stats['valid_rejected'] = stats.get('valid_rejected', 0) + 1
+    # the same call in the same writer state is accepted under one version and refused under another, although the format of the
+    # refusing version can represent it (R2): whether a program can be written must not depend on the version either
+    import ast
+    for (v, pz), log in logs.items():
+        for (i, ok, before, c) in log:
+            if ok:
+                continue
+            others = [(v2, p2) for (v2, p2), l2 in logs.items() if v2 != v and i < len(l2) and l2[i][1] and l2[i][2] == before]
+            if others and classify(ast.literal_eval(before) + [c], w, v) is None:
+                stats['version_dependent_refusal'] = stats.get('version_dependent_refusal', 0) + 1
+                sieve.add({'kind': 'a call the format can represent is refused under one version and accepted under another', 'class': f'version-dependent refusal v{v}',
+                           'case': {'w': w, 'version': v, 'preset': pz, 'calls': calls, 'refused_call': list(c), 'accepted_before': before, 'accepted_under': [list(o) for o in others]},
+                           'expected': 'accepted (R2: representable)', 'observed': 'FlipJumpWriteFjmException', 'r2_reason': None, 'outcome': 'rejected', 'detail': '',
+                           'summary': f'w={w} v={v}: add_segment{tuple(c[1:])} refused after {before[:80]} but accepted under versions {[o[0] for o in others]}'})
+                break
     by_accepted = {}
     for k, (acc, img) in images.items():
         by_accepted.setdefault(acc, set()).add(repr(img))
@@ -451,6 +486,21 @@ def replay(args):
         for rec2 in res[0]:
             print('PROBLEM', rec2['summary'])
         if res[0]:
+            print(f'VIOLATION property={PROP} replay={args.replay}')
+            return 1
+        print('replay: ok')
+        return 0
+    if 'refused_call' in c:
+        calls = [tuple(x) for x in c['calls']]
+        logs = {}
+        for v in (0, 1, 2, 3):
+            run_case(calls, c['w'], v, scratch() / 'replay.fjm', 6 if v == 3 else None)
+            logs[v] = list(LOG)
+        v = c['version']
+        hit = [(i, before) for (i, ok, before, call) in logs[v] if not ok and list(call) == list(c['refused_call'])
+               and any(i < len(l2) and l2[i][1] and l2[i][2] == before for v2, l2 in logs.items() if v2 != v)]
+        print('refused under version', v, ':', hit)
+        if hit:
             print(f'VIOLATION property={PROP} replay={args.replay}')
             return 1
         print('replay: ok')
